@@ -25,7 +25,7 @@ Theorem C12g_link_merge_loop :
        b <= SENT ->
        c <= SENT ->
        d <= SENT ->
-       merge_res (fn_merge_partitions_loop1 fuel p1 p2 res (i, a, b) (j, c, d)) =
+       merge_res (fn_merge_partitions_loop1 fuel p1 p2 (i, a, b) (j, c, d) res) =
        merge_loop fuel (convp p1) (convp p2) i a b j c d (convp res).
 Proof. exact link_merge_loop. Qed.
 Print Assumptions C12g_link_merge_loop.
